@@ -361,8 +361,10 @@ fn coq_bools(v: &[bool]) -> String {
   }
   util::list(runs.iter().map(|(n, b)| format!("({}, {})", n, util::b(*b))))
 }
+/// Lists are cut at 3000 elements (a state that large already disagrees with the model, and a
+/// longer literal would overflow the stack of Coq's parser).
 fn coq_zs(v: &[i64]) -> String {
-  util::list(v.iter().map(|x| util::z(*x as i128)))
+  util::list(v.iter().take(3000).map(|x| util::z(*x as i128)))
 }
 
 fn digest(sut: &mut Sut) -> String {
